@@ -9,7 +9,7 @@ use blsful::inner_types::{Field, Group};
 use blsful::*;
 use serde_json::json;
 
-pub const RULE: &str = "recipient keys (random) x plaintext scalars from E (1,2,3,r-1,r-2,2^254,...,random) and at word / limb boundaries (255, 2^32-1, 2^32, 2^63-1, 2^63, 2^63+1, 2^64-1, 2^64, 2^128, 2^248, 2^253 in the quick tier; 2^k-1, 2^k, 2^k+1 for 17 values of k in the thorough tier) x 2 groups: decrypt(sk) must equal m*H where H is recomputed by the reference as hash_to_curve(compress(P), ENC_DST) in the key group; the library's message_generator() must equal the reference's bytes. Sums of k in {2,3,16} ciphertexts through every Add / AddAssign impl (6) must decrypt to (sum m_i)*H, for five plaintext patterns: random, wrapping around r, cancelling to zero (the sum decrypts to the identity), 1 + (r-1) + cancelling rest, summing to one. All workloads run in the release and in the checked (debug assertions + overflow checks) build. Decryption shares built with the public public_key_share_with_generator(share, c1) for every (t,n) with n<=4 (quick) / n<=5 (thorough): every subset in ascending, reversed and shuffled order; >=t must decrypt to m*H via ElGamalDecryptionKey::from_shares, <t must not. Proofs: verify(pk), verify_and_decrypt(sk)==m*H, the reference verifier accepts the library's proof and reproduces its challenge from the merlin transcript, the library accepts a reference-built proof; perturbations that must be rejected: c1+G, c2+G, c1<->c2, each of the 3 scalars +1, challenge of another proof, ciphertext of another proof, other pk, -pk, pk+G; verify_and_decrypt with a non-matching key. History clusters (2 quick / 32 thorough per group): two proofs for one recipient and six single-component variants through verify / verify under another key / verify_and_decrypt / verify_and_decrypt with another key, plus decrypt, asked in every ordered pair (a,b) as a,b,b,a; every answer must equal the answer the question has on its own. Distinct by (suite,kind,inputs).";
+pub const RULE: &str = "recipient keys (random) x plaintext scalars from E (1,2,3,r-1,r-2,2^254,...,random) and at word / limb boundaries (255, 2^32-1, 2^32, 2^63-1, 2^63, 2^63+1, 2^64-1, 2^64, 2^128, 2^248, 2^253 in the quick tier; 2^k-1, 2^k, 2^k+1 for 17 values of k in the thorough tier) x 2 groups: decrypt(sk) must equal m*H where H is recomputed by the reference as hash_to_curve(compress(P), ENC_DST) in the key group; the library's message_generator() must equal the reference's bytes. Sums of k in {2,3,16} ciphertexts through every Add / AddAssign impl (6) must decrypt to (sum m_i)*H, for five plaintext patterns: random, wrapping around r, cancelling to zero (the sum decrypts to the identity), 1 + (r-1) + cancelling rest, summing to one. All workloads run in the release and in the checked (debug assertions + overflow checks) build. Decryption shares built with the public public_key_share_with_generator(share, c1) for every (t,n) with n<=4 (quick) / n<=5 (thorough): every subset in ascending, reversed and shuffled order; >=t must decrypt to m*H via ElGamalDecryptionKey::from_shares, <t must not; plus 2-of-255 and 5-of-255 splits recombined from the 10 highest identifiers (both orders), the 21 lowest, 9 around 128 and all 255. Proofs: verify(pk), verify_and_decrypt(sk)==m*H, the reference verifier accepts the library's proof and reproduces its challenge from the merlin transcript, the library accepts a reference-built proof; perturbations that must be rejected: c1+G, c2+G, c1<->c2, each of the 3 scalars +1, challenge of another proof, ciphertext of another proof, other pk, -pk, pk+G; verify_and_decrypt with a non-matching key. History clusters (2 quick / 32 thorough per group): two proofs for one recipient and six single-component variants through verify / verify under another key / verify_and_decrypt / verify_and_decrypt with another key, plus decrypt, asked in every ordered pair (a,b) as a,b,b,a; every answer must equal the answer the question has on its own. Distinct by (suite,kind,inputs).";
 
 pub fn run(ctx: &mut Ctx) {
     for_both!(run_suite, ctx);
@@ -70,6 +70,13 @@ fn run_suite<C: Suite>(ctx: &mut Ctx) {
         g += 1;
         if ctx.mine(g) {
             history_cluster::<C>(ctx, g, i);
+        }
+    }
+    // decryption shares: large sets
+    for t in [2usize, 5] {
+        g += 1;
+        if ctx.mine(g) {
+            shares_large::<C>(ctx, g, t);
         }
     }
     // decryption shares
@@ -226,6 +233,39 @@ fn one<C: Suite>(ctx: &mut Ctx, g: u64, ename: &str, m: &RS, _rep: usize) {
     if let Some(a) = a {
         ctx.expect(!a, &format!("C14/verify-and-decrypt-wrong-key/{n}"), || d("verify_and_decrypt succeeds with a non-matching secret key"));
         ctx.hit(&format!("{n}/proof/wrong-key"), &[&pb]);
+    }
+}
+
+/// Large share sets: a 2-of-255 and a 5-of-255 split, recombined from the 10 highest identifiers,
+/// the 21 lowest, 9 around 128, and all 255 (products of identifiers beyond 64 bits).
+fn shares_large<C: Suite>(ctx: &mut Ctx, g: u64, t: usize) {
+    let mut rng = ctx.rng(g);
+    let n = C::NAME;
+    let key = gen::random_scalar(&mut rng);
+    let sk = sk_from_rs::<C>(&key);
+    let pk = sk.public_key();
+    let m = gen::random_scalar(&mut rng);
+    let want = hm::<C>(&m);
+    let Ok(ct) = pk.encrypt_key_el_gamal(&sk_from_rs::<C>(&m)) else { return };
+    let Ok(sh) = sk.split(t, 255) else { return };
+    let ds: Vec<ElGamalDecryptionShare<C>> = sh.iter().filter_map(|s| <C as BlsSignatureCore>::public_key_share_with_generator(&s.0, ct.c1).ok().map(ElGamalDecryptionShare)).collect();
+    if ds.len() != 255 {
+        return;
+    }
+    let sets: Vec<(&str, Vec<usize>)> = vec![
+        ("10 highest identifiers", (245..255).collect()),
+        ("10 highest identifiers, descending", (245..255).rev().collect()),
+        ("21 lowest identifiers", (0..21).collect()),
+        ("9 identifiers around 128", (124..133).collect()),
+        ("all 255", (0..255).collect()),
+    ];
+    for (sn, idx) in sets {
+        let sel: Vec<ElGamalDecryptionShare<C>> = idx.iter().map(|i| ds[*i].clone()).collect();
+        let d = || json!({"suite":n,"t":t,"n":255,"subset":sn});
+        let Some(r) = ctx.guard("ElGamalDecryptionKey::from_shares", d, || ElGamalDecryptionKey::<C>::from_shares(&sel)) else { continue };
+        let got = r.ok().map(|k| enc_pt(&k.decrypt(&ct)));
+        ctx.expect(got.as_deref() == Some(&want[..]), &format!("C14/threshold-decrypt-failed/{n}"), || { let mut x = d(); x["what"] = json!("a key recombined from t or more decryption shares does not decrypt to m*H"); x });
+        ctx.hit(&format!("{n}/shares/>=t"), &[&[t as u8, 255], sn.as_bytes(), &want]);
     }
 }
 
